@@ -1455,8 +1455,8 @@ def plan(tier):
         add('B: imex_1st_order, core QI x {FE,PIC,SOE} x LEGENDRE x {GAUSS,LOBATTO,RADAU-RIGHT} x M in {2,3} x {scalars,dense3} x dt {0.1,7.5} x tau', fo_units('imex_1st_order', [{'QI': a, 'QE': b} for a in CORE_I for b in EXPL_OK], L3, (2, 3), O2, D2))
         add('B: imex_1st_order, core QI x {FE,PIC,SOE} x LEGENDRE RADAU-RIGHT x M=2 x heat3(forced) x 4 dt x tau', fo_units('imex_1st_order', [{'QI': a, 'QE': b} for a in CORE_I for b in EXPL_OK], [('LEGENDRE', 'RADAU-RIGHT')], (2,), ['heat3']))
         add('B: imex_1st_order_mass, {BE,LU,MIN_SR_FLEX} x {FE,PIC} x LEGENDRE x {GAUSS,LOBATTO,RADAU-RIGHT} x M in {2,3} x dt {0.1,7.5}', fo_units('imex_1st_order_mass', [{'QI': a, 'QE': b} for a in ('BE', 'LU', 'MIN_SR_FLEX') for b in ('FE', 'PIC')], L3, (2, 3), O2, D2))
-        mi = [{'Q1': a, 'Q2': b} for a in ('BE', 'LU', 'PIC') for b in ('BE', 'LU', 'PIC')] + [{'Q1': 'MIN_SR_FLEX', 'Q2': 'BE'}, {'Q1': 'BE', 'Q2': 'MIN_SR_FLEX'}]
-        add('B: multi_implicit, 3x3 generators (+2 k-dependent) x LEGENDRE x {GAUSS,LOBATTO,RADAU-RIGHT} x M in {2,3} x dt {0.1,7.5}', fo_units('multi_implicit', mi, L3, (2, 3), O2, D2))
+        mi = [{'Q1': a, 'Q2': b} for a in ('BE', 'LU', 'PIC') for b in ('BE', 'LU', 'PIC')] + [{'Q1': 'MIN_SR_FLEX', 'Q2': 'BE'}, {'Q1': 'BE', 'Q2': 'MIN_SR_FLEX'}, {'Q1': 'MIN_SR_FLEX', 'Q2': 'Jumper'}, {'Q1': 'Jumper', 'Q2': 'MIN_SR_FLEX'}, {'Q1': 'FlexJumper', 'Q2': 'Jumper'}]  # the last three: two DIFFERENT sweep-dependent generators on one sweeper
+        add('B: multi_implicit, 3x3 generators (+5 with k-dependent ones) x LEGENDRE x {GAUSS,LOBATTO,RADAU-RIGHT} x M in {2,3} x dt {0.1,7.5}', fo_units('multi_implicit', mi, L3, (2, 3), O2, D2))
     else:
         add('B: generic_implicit, all generators x 24 families x M<=4 x 3 ops x dt (4; non-LEGENDRE: {0.1,7.5}) x tau', fo_units('generic_implicit', [{'QI': g} for g in G], ALL_FAMILIES, (1, 2, 3, 4), O3, dts_other=D2, full_node_types=('LEGENDRE',)))
         add('B: generic_implicit, all generators x LEGENDRE x 4 quad x M=5', fo_units('generic_implicit', [{'QI': g} for g in G], LEG, (5,), O3))
@@ -1465,8 +1465,8 @@ def plan(tier):
         add('B: imex_1st_order, core QI x {PIC,SOE} x 24 families x M<=3', fo_units('imex_1st_order', [{'QI': a, 'QE': b} for a in CORE_I for b in ('PIC', 'SOE')], ALL_FAMILIES, Mq, O3, dts_other=D2, full_node_types=('LEGENDRE',)))
         add('B: imex_1st_order, {BE,LU} x all other QE generators (rejections) x LEGENDRE x 4 quad x M in {2,3}', fo_units('imex_1st_order', [{'QI': a, 'QE': b} for a in ('BE', 'LU') for b in G if b not in EXPL_OK], LEG, (2, 3), O2, [0.1]))
         add('B: imex_1st_order_mass, core QI x {FE,PIC,SOE} x 24 families x M in {2,3}', fo_units('imex_1st_order_mass', [{'QI': a, 'QE': b} for a in CORE_I for b in EXPL_OK], ALL_FAMILIES, (2, 3), O2, dts_other=D2, full_node_types=('LEGENDRE',)))
-        cm = ['BE', 'LU', 'PIC', 'MIN_SR_FLEX']
-        add('B: multi_implicit, 4x4 generators x 24 families x M<=3', fo_units('multi_implicit', [{'Q1': a, 'Q2': b} for a in cm for b in cm], ALL_FAMILIES, Mq, O2, dts_other=D2, full_node_types=('LEGENDRE',)))
+        cm = ['BE', 'LU', 'PIC', 'MIN_SR_FLEX', 'Jumper']
+        add('B: multi_implicit, 5x5 generators x 24 families x M<=3', fo_units('multi_implicit', [{'Q1': a, 'Q2': b} for a in cm for b in cm], ALL_FAMILIES, Mq, O2, dts_other=D2, full_node_types=('LEGENDRE',)))
 
     def cases(family, sweeper, **dims):
         keys = list(dims)
